@@ -53,9 +53,10 @@ let run_maps (parts : string list) : (string * jv) list =
       | Some r, Some o ->
           let m1 = List.filter_map (fun t -> match t.rt_src with
               | Some ((_, sl), sc) -> Some (posn (key_of t), posn (int_of_z sl, int_of_z sc)) | None -> None) r in
-          let m2 = List.filter_map (fun t -> match t.rt_src with
-              | Some _ -> Some (posn (key_of t), t) | None -> None) (sort_tokens o) in
-          let c = chain m1 m2 in
+          (* sourceless segments of the original map are kept as lookup targets that resolve to nothing *)
+          let m2 = List.map (fun t -> match t.rt_src with
+              | Some _ -> (posn (key_of t), Some t) | None -> (posn (key_of t), None)) (sort_tokens o) in
+          let c = chain_opt m1 m2 in
           [ ("chain", JL (List.map (fun ((gl, gc), t) ->
                  tok_json { t with rt_gl = gl; rt_gc = z_of_int (int_of_n gc) }) c)) ]
       | _, _ -> [ ("chain", JS "undecodable") ]
